@@ -42,12 +42,9 @@ def expected_length(sq):
 
 
 def same(a, b, exact, st="float64"):
-    """exact equality where the arithmetic is exact; float32 coordinates are measured in float32 arithmetic by
-    the kernels (and in float64 by the scalar wrappers), so they are compared to single precision"""
+    """exact equality where the arithmetic is exact (every coordinate subtype is measured in double precision: D40)"""
     if a != a or b != b:
         return (a != a) and (b != b)
-    if st == "float32":
-        return abs(a - b) <= 2e-5 * max(1.0, abs(a), abs(b))
     if exact:
         return a == b
     return abs(a - b) <= 1e-12 * max(1.0, abs(a), abs(b))
@@ -91,7 +88,7 @@ def check_array(chk, kind, st, arr, els, r, hist=()):
     for i in range(n):
         cls = "missing" if els[i] is None else ("empty" if not geo.verts_of(kind, els[i]) else "regular")
         expL = expected_length(lens[i]) if els[i] is not None else float("nan")
-        exact = lens[i] is None or all(math.isqrt(s) ** 2 == s for s in lens[i])
+        exact = lens[i] is None or all(math.isqrt(s) ** 2 == s and s < 2 ** 53 for s in lens[i])
         if not same(float(L[i]), expL, exact, st):
             chk.violation(f"length/{kind}/array/{cls}", dict(rep, row=i, element=els[i], impl=float(L[i]), model=expL,
                                                             squares=lens[i]), size=sz)
@@ -199,7 +196,9 @@ def run_cases(chk, tier):
                 chk.sample(dict(kind=kind, subtype=st, elements=els), cap=8)
         # narrow integer storage with coordinates whose products leave the storage type (the sums are still exact in float64)
         if kind in ("polygon", "multipolygon", "ring", "line", "multiline"):
-            for st, mag in (("int32", 60000), ("int16", 250), ("int16", 30000), ("int64", 3 * 10 ** 6)):
+            # float32 / int64 coordinates whose differences, squares and products leave the storage type (D40)
+            wide = (("float32", 2 ** 24 - 100),) + ((("int64", 4 * 10 ** 9),) if kind in ("line", "multiline") else ())
+            for st, mag in (("int32", 60000), ("int16", 250), ("int16", 30000), ("int64", 3 * 10 ** 6)) + wide:
                 for _ in range(2 if tier == "quick" else 10):
                     els = [e for e in geo.structured_elements(kind, r, r.randint(2, 6), mag=mag)
                            if e is None or all(isinstance(c, int) for v in geo.verts_of(kind, e) for c in v)]
